@@ -262,6 +262,12 @@ Proof.
   rewrite Hs, allowed_pausing_paused. rewrite <- !app_assoc. reflexivity.
 Qed.
 
+Lemma d_top_pausing_permit (s : st) os l :
+  state s = Pausing -> cache s = Some l -> permit s = true -> dstep s CTop os = inl (s, CBody, os ++ []).
+Proof.
+  intros H1 H2 H3. unfold RE_Inv.dstep. cbv beta iota zeta. unfold RE.resumable. rewrite H1, H2. ev_st. rewrite H3. cbn [negb]. reflexivity.
+Qed.
+
 Lemma d_exit_ret (s : st) os v :
   dstep s (CExit (XRet v)) os = inr (set_pc (set_exit s XSuccess (RE.reason P D s)) (PcFinalSleep (TReturn v)), os ++ [OTask WSleep0]).
 Proof. reflexivity. Qed.
@@ -471,6 +477,25 @@ Qed.
 Lemma request_pause_refused (s : st) : allowed (state s) Pausing = false ->
   RE.request_pause P D s false = (s, Some ETransition, []).
 Proof. intros H. unfold RE.request_pause. rewrite H. reflexivity. Qed.
+
+(* the grace sleep of a checkpoint reached with a deferred pause pending is over: the engine pauses now *)
+Lemma task_ckpt_sleep (s : st) l :
+  pc s = PcCmd KCkptSleep -> must_cancel s = false -> state s = Running -> permit s = true -> stashed s = None ->
+  cache s = Some l -> nobintr (bundlers s) = true -> S (List.length (resps s)) = List.length (plans s) ->
+  let s0 := set_must_cancel s false in
+  let s1 := RE.cancel_task P D (RE.set_bundlers P D (set_state_raw (RE.interrupt P D (RE.set_deferred P D s0 false) CzPause) Pausing) (bundlers s0)) in
+  task_step s = (set_pc (set_resps s1 (RVal VNone :: resps s1)) PcSleep0,
+                 (((([OState Running Pausing] ++ []) ++ [OResp (RVal VNone)]) ++ []) ++ [OTask WSleep0])).
+Proof.
+  intros Hpc Hmc Hst Hpm Hsh Hc Hnb Hlen. cbv zeta.
+  pose proof (request_pause_hard (set_must_cancel s false)) as Hrp. cbv zeta in Hrp. simp_st. rewrite Hpc in Hrp.
+  specialize (Hrp Hst Hnb).
+  eapply task_step_dterm with (n := 3);
+    [unfold RE_Inv.tentry; cbv zeta; rewrite Hpc, Hmc; rewrite Hrp; reflexivity | | lia].
+  eapply dterm_step; [apply d_continue|]. cbv iota.
+  eapply dterm_step; [eapply d_top_pausing_permit with (l := l); unfold RE.cancel_task; simp_st; rewrite Hpc; simp_st; first [assumption | reflexivity]|].
+  eapply dterm_stop. apply d_body; unfold RE.cancel_task; simp_st; rewrite Hpc; simp_st; [cbn [List.length]; rewrite Hlen; reflexivity | assumption].
+Qed.
 
 (* resume() on a paused engine *)
 Lemma resume_step (s : st) l :
